@@ -124,11 +124,22 @@ fn mints_of(w: &World, pool: &str, a_to_b: bool) -> (String, String) {
 }
 
 fn random_limit(w: &mut World, pool: &str, a_to_b: bool) -> u128 {
+    let sp = w.pool_sqrt_price(pool);
+    let t = w.pool_tick(pool);
+    if w.rng.gen_bool(0.04) {
+        // a limit of this leg that is not on its trade side (the two-hop must be refused): the price itself, one unit off,
+        // or a point between the price and the edge of the current tick
+        let (edge_lo, edge_hi) = (price_of(t), price_of(t + 1));
+        let between = |w: &mut World, a: u128, b: u128| if b > a + 1 { a + 1 + w.rng.gen::<u128>() % (b - a - 1) } else { a };
+        let cand = if a_to_b { [sp, sp + 1, between(w, sp, edge_hi)] } else { [sp, sp.saturating_sub(1), between(w, edge_lo, sp)] };
+        let c = cand[w.rng.gen_range(0..cand.len())];
+        if c >= MIN_SQRT_PRICE && c <= MAX_SQRT_PRICE && ((a_to_b && c >= sp) || (!a_to_b && c <= sp)) {
+            return c;
+        }
+    }
     if w.rng.gen_bool(0.7) {
         return 0;
     }
-    let sp = w.pool_sqrt_price(pool);
-    let t = w.pool_tick(pool);
     let d = w.rng.gen_range(1..300);
     let p = if a_to_b { price_of(t - d) } else { price_of(t + d) };
     if (a_to_b && p < sp && p >= MIN_SQRT_PRICE) || (!a_to_b && p > sp && p <= MAX_SQRT_PRICE) { p } else { 0 }
